@@ -142,7 +142,7 @@ func VerifC01RollbackSpendChain() {
 	}
 	t2 := wire.NewMsgTx()
 	t2.AddTxIn(wire.NewTxIn(&wire.OutPoint{Hash: a.rec.Hash, Index: 0}, nil))
-	out2 := uint64(rt.NondetU32()) + 1
+	out2 := 500 + uint64(rt.NondetLen(0, 1))
 	rt.Assume(out2 <= a.outValue)
 	t2.AddTxOut(wire.NewTxOut(int64(out2), vP2WSH(sh2)))
 	vTxIDSeeds = []wire.Hash{{0xA2}}
